@@ -30,7 +30,7 @@ import (
 type c36Reply struct {
 	From    int    `json:"from"`    // sender index (small pool => repeated senders)
 	Kind    int    `json:"kind"`    // 0 valid member, 1 wrong type byte, 2 garbage behind the right type byte, 3 empty payload, 4 encoded nil member
-	Addr    int    `json:"addr"`    // 0 own, 1 own (16-byte form), 2 other IP, 3 no address
+	Addr    int    `json:"addr"`    // 0 own, 1 own in the other byte form (4 vs 16 bytes), 2 other IP, 3 no address
 	Port    int    `json:"port"`    // 0 own, 1 other
 	Garbage []byte `json:"garbage"` // kind 2
 	Type    int    `json:"type"`    // kind 1: the wrong type byte
@@ -101,7 +101,12 @@ func bodyC36(c c36Case, x *vkit.Ctx) {
 		case 0:
 			m.Addr = ownIP
 		case 1:
-			m.Addr = ownIP.To16()
+			// the same address in the other byte form (4-byte vs 16-byte): an equal IP
+			if v4 := ownIP.To4(); v4 != nil && len(ownIP) == net.IPv6len {
+				m.Addr = v4
+			} else {
+				m.Addr = ownIP.To16()
+			}
 		case 2:
 			m.Addr = otherIP
 		}
